@@ -240,6 +240,28 @@ def r6_step_count(ctx):
 SOLN = "cardillo/solver/solution.py"
 
 
+def io_not_memoised(ctx):
+    """"Saving and loading a solution preserves every field": load_solution returns what is in the file NOW.  A memoised load (keyed by the
+    file name) hands back the solution that was in the file when it was first read - after a second save under the same name every field,
+    the grid and the row count belong to the old run - and all callers share one mutable object."""
+    rep = ctx.rep
+    mod = ctx.repo.module(SOLN)
+    n = 0
+    for q, fn in mod.defs().items():
+        if not isinstance(fn, ast.FunctionDef) or not any(k in fn.name for k in ("load", "save")):
+            continue
+        n += 1
+        C = f"{SOLN}:{q}"
+        decos = [d for d in fn.decorator_list if (dotted(d.func if isinstance(d, ast.Call) else d) or "").split(".")[-1] in ("lru_cache", "cache", "cached", "cachedmethod", "memoize")]
+        if decos:
+            rep.bad("C20.R11", C, decos[0], f"`@{norm_src(decos[0])}` memoises `{fn.name}` by its arguments (the file name): after the file has been written again the old Solution is returned, "
+                    "and every caller receives the same mutable object", f"{SOLN}:{fn.lineno}")
+        else:
+            rep.ok("C20.R11", C, "reads / writes the file on every call (not memoised)")
+    if n < 2:
+        raise AnalysisError(f"{SOLN}: save / load helpers not found")
+
+
 def iterator_rows(ctx):
     """"Iterating the solution yields one record per instant equal to the corresponding ROWS": every element selection the iterator (and its
     helpers) applies to a solution field with the running index selects along the LEADING axis (`field[self._index]`).  A selection along
@@ -408,6 +430,8 @@ def run(ctx):
     rep.rule("C20.R4", "Solution fields are array expressions of the row lists", 40)
     rep.rule("C20.R5", "ScipyIVP / ScipyDAE field shapes", 8)
     rep.rule("C20.R6", "the step loop's iterable is a function of the initial time, the final time and the step", 4)
+    rep.rule("C20.R11", "saving and loading go to the file on every call (no memoisation by file name)", 2)
+    io_not_memoised(ctx)
     rep.rule("C20.R10", "the solution iterator selects each record along the leading (instant) axis", 1)
     iterator_rows(ctx)
     rep.rule("C20.R9", "the number of steps is rounded with a tolerance: no float-step np.arange / bare ceil of a float quotient decides where a time grid ends", 7)
@@ -638,4 +662,8 @@ MUTANTS += [
     dict(id="c20-r10-seed", canary=True, what="[seeded by sub-agent] iterator slices along the last axis whenever that axis has as many entries as there are instants", file=SOLN,
          old="                                    if self._solution.__getattribute__(key).shape[0]\n                                    == 0\n",
          new="                                    if self._solution.__getattribute__(key).shape[-1]\n                                    == len(self._solution.t)\n", expect="C20.R10"),
+]
+MUTANTS += [
+    dict(id="c20-r11-seed", canary=True, what="[seeded by sub-agent] load_solution memoised with lru_cache", file=SOLN,
+         old="def load_solution(", new="from functools import lru_cache\n\n\n@lru_cache(maxsize=8)\ndef load_solution(", expect="C20.R11"),
 ]
